@@ -32,7 +32,8 @@ CONSTANTS
     LitVals,    \* small literal values, e.g. {0, 2}
     LitMax,     \* BOOLEAN: also the literal T(max T)
     UseWide,    \* BOOLEAN: i64 parameter under narrowing casts, casts to i64/u64 at a return
-    MaxNodes, MaxStack, MaxLocals, MaxParams, MaxFrames
+    MaxNodes, MaxStack, MaxLocals, MaxParams, MaxFrames,
+    MinNodes    \* a top-level `return` needs at least this many tokens before it (longer sampled bodies)
 
 VARIABLES stk, frames, body, locals, used, retT, nodes, phase
 vars == <<stk, frames, body, locals, used, retT, nodes, phase>>
@@ -93,7 +94,9 @@ NotA == /\ Building /\ "not" \in Unary /\ Len(stk) > 0 /\ Top.t = "u8"
 CastA == /\ Building /\ "cast" \in Unary /\ Len(stk) > 0
          /\ \E t \in Types \cup (IF UseWide THEN Wide ELSE {}) :
                /\ t # Top.t
-               /\ Top.t \in Wide => (Top.k = "par" /\ t \in {"i8", "i16", "i32"} \cup {"u8", "u16"})
+               \* 64-bit source: only the same-signedness narrowing i64 -> i8/i16/i32 ("Narrowing (e.g.,
+               \* i8(i64_val)) truncates"); i64 -> u8/u16 is not generated (narrowing or saturation first?)
+               /\ Top.t \in Wide => (Top.k = "par" /\ t \in {"i8", "i16", "i32"})
                /\ t \in Wide => Top.t \in Scalar
                /\ Replace1([k |-> "cast", t |-> t, e |-> Top])
          /\ UNCHANGED <<frames, body, locals, used, retT, phase>>
@@ -119,6 +122,7 @@ SRet == /\ One
         /\ \/ Top.t \in Scalar
            \/ Top.t \in Wide /\ Top.k = "cast"
         /\ retT \in {"none", Top.t}
+        /\ frames = <<>> => nodes >= MinNodes
         /\ retT' = Top.t /\ AppendCur([k |-> "ret", e |-> Top])
         /\ stk' = <<>> /\ nodes' = nodes + 1
         /\ Budget(stk', frames', body', nodes')
@@ -226,10 +230,11 @@ OtherType(t) == IF t = "i16" THEN "u8" ELSE "i16"
 
 \* ill-typed / ill-formed variants of the same program, for the no-crash clause
 Bad(p) ==
-    <<  ShowG(p.ps, p.ret, p.body, TRUE),                                   \* casts dropped: mixed widths [M]
-        ShowG(p.ps, OtherType(p.ret), p.body, FALSE),                       \* declared return type differs
-        ShowG(SubSeq(p.ps, 1, Len(p.ps) - 1), p.ret, p.body, FALSE),        \* last parameter undeclared
-        ShowG(p.ps, p.ret, SubSeq(p.body, 1, Len(p.body) - 1), FALSE) >>    \* final statement (a return) missing
+    <<  ShowG(p.ps, p.ret, p.body, "nocast"),                               \* casts dropped: mixed widths [M]
+        ShowG(p.ps, p.ret, p.body, "bare"),                                 \* literals without their type
+        ShowG(p.ps, OtherType(p.ret), p.body, "std"),                       \* declared return type differs
+        ShowG(SubSeq(p.ps, 1, Len(p.ps) - 1), p.ret, p.body, "std"),        \* last parameter undeclared
+        ShowG(p.ps, p.ret, SubSeq(p.body, 1, Len(p.body) - 1), "std") >>    \* final statement (a return) missing
 
 Record(p) ==
     LET as == ArgsFor(p.ps)
